@@ -15,6 +15,7 @@ Universe == CASE Kind = "u06" -> U06
               [] Kind = "segs" -> SegCases
               [] Kind = "wnames" -> WNames
               [] Kind = "cons" -> ConstructInputs
+              [] Kind = "len" -> {<<"r", n>> : n \in LenRel} \cup {<<"o", n>> : n \in LenOrg}
 
 GInit == x \in Universe
 GNext == FALSE /\ x' = x
